@@ -10,7 +10,7 @@ ASSUMPTIONS = [
     "norms of 's' parts in the symmetric ('L' storage) interpretation",
     "GLPK: documented behaviour is that all entries are None for infeasible/unbounded problems",
 ]
-REQUIRED_COUNTERS = ["primal.conelp", "primal.lp", "primal.socp", "primal.sdp", "dual.conelp", "dual.lp", "dual.socp",
+REQUIRED_COUNTERS = ["homogeneous-equalities", "primal.conelp", "primal.lp", "primal.socp", "primal.sdp", "dual.conelp", "dual.lp", "dual.socp",
                      "dual.sdp", "kkt.ldl", "kkt.ldl2", "kkt.qr", "kkt.chol", "kkt.chol2", "kkt.callable",
                      "start.both", "storage.sparse", "wrapper-block-checks", "op.primal infeasible", "op.dual infeasible"]
 
